@@ -41,11 +41,11 @@ PROPS = {
     "C10": dict(scen=[("core", "total", True)], mc=PIPE, invariants="OutcomeTotal (MC), Panic/Timeout outcomes match no action (TV)"),
     "C11": dict(scen=[("hooked", "candidates", False), ("core", "candgroups", True)], mc=mc_join(MSEL, PIPE), apalache=["MaskSelect"],
                 invariants="MaskMinimalInv (MC_Pipeline), Minimal/IndInv (MC_MaskSelect, Apalache), chosen in argmin of Penalty over recorded candidates (TV)"),
-    "C15": dict(scen=[("core", "cells", True), ("hooked", "maskop", False)], mc=mc_join(PIPE, LEMMAS),
+    "C15": dict(scen=[("core", "cells", True), ("core", "callbacks", True), ("hooked", "maskop", False)], mc=mc_join(PIPE, LEMMAS),
                 invariants="LabelsExact, DataLabelCount (TV), FunctionPatternsInv (MC), LayoutLemmas"),
 }
 PROPS.update({
-    "C12": dict(scen=[("core", "svg", True)], mc=mcq("MC_Render"),
+    "C12": dict(scen=[("core", "svg", True), ("core", "callbacks", True)], mc=mcq("MC_Render"),
                 invariants="SvgStructure/SvgBackground/SvgLayerCount/SvgCells/SvgLayerColors/SvgImage over the register machine RegsAfter(program) (TV); MC_Render: render/decode round trips of the model"),
     "C13": dict(scen=[("core", "raster", True)], mc=mcq("MC_Render"),
                 invariants="RasterSide/RasterCentres/RasterUniform/RasterPng over RegsAfter(program) (TV)"),
